@@ -164,7 +164,7 @@ func checkC09(c *Ctx) {
 			continue
 		}
 		if len(ds) == 0 {
-			c.Inconclusive("store difference in program %d step %d did not reproduce", d.Tr, d.I)
+			c.Unreproduced("store difference in program %d step %d did not reproduce", d.Tr, d.I)
 			continue
 		}
 		c.Violation("", fmt.Sprintf("C09: memory store and file store disagree at step %d (%s)", ds[0].I, ds[0].Ev),
